@@ -2,6 +2,7 @@ package main
 
 import (
 	"fmt"
+	"go/types"
 	"strings"
 
 	"golang.org/x/tools/go/ssa"
@@ -279,6 +280,126 @@ func c17Layout(c *Ctx) {
 		}
 	}
 	c.check(n >= 2, rule, ref+"/writers", "-", "decoder and pop found", fmt.Sprintf("only %d writers of %s found", n, ref))
+	c17Views(c)
+}
+
+// c17Views: what GetVia()/GetRoute() hand out is a view of ONE header line (the first one), valid until the list is
+// edited. (a) stale-view: after a message-level pop (PopVia/PopRoute, which removes the whole line when its last entry
+// goes) a view fetched before it is not used again - the next entry may live in the next line, so code that goes on
+// with the old view treats `a, b` on one line and on two lines differently; (b) view-escape: such a view, or an entry
+// taken from it, is not kept in a struct field, a package variable, a map or a channel - a remembered top entry is
+// not reset by the in-place pop of a joined line although the removal of a whole line does reset it.
+func c17Views(c *Ctx) {
+	w := c.w
+	rule := "layout"
+	getters := map[string]string{"(*Message).GetVia": "(*Message).PopVia", "(*Message).GetRoute": "(*Message).PopRoute"}
+	nViews := 0
+	for _, fn := range w.All {
+		if !w.isMain(fn) || fn.Blocks == nil {
+			continue
+		}
+		for _, g := range w.callsIn(fn, "(*Message).GetVia", "(*Message).GetRoute") {
+			gc, ok := g.In.(*ssa.Call)
+			if !ok {
+				continue
+			}
+			nViews++
+			// the view value: result 0
+			var view ssa.Value
+			for _, r := range *gc.Referrers() {
+				if e, isE := r.(*ssa.Extract); isE && e.Index == 0 {
+					view = e
+				}
+			}
+			if view == nil {
+				continue
+			}
+			pops := siteInstrs(w.callsIn(fn, getters[g.Name]))
+			if len(pops) == 0 {
+				continue
+			}
+			k := 0
+			for _, use := range *view.Referrers() {
+				ui, isI := use.(ssa.Instruction)
+				if !isI {
+					continue
+				}
+				if _, dbg := use.(*ssa.DebugRef); dbg {
+					continue
+				}
+				for _, pop := range pops {
+					// pop ... use, without the fetch being executed again in between
+					if canReach(at(pop), nil, isInstr(ui), isInstr(gc)) && canReach(at(gc), nil, isInstr(pop), nil) {
+						k++
+						c.bad(rule, fmt.Sprintf("%s/stale-view#%d", w.fname(fn), k), w.ipos(ui), "the header view fetched by "+g.Name+" at "+w.ipos(gc)+" is used again after "+getters[g.Name]+" at "+w.ipos(pop)+" without being fetched anew: the view denotes one header line, the pop may have removed that line, so several entries are handled only as far as they share the first line - the same list spread over several lines is treated differently")
+					}
+				}
+			}
+			if k == 0 {
+				c.ok(rule, fmt.Sprintf("%s/view-not-used-after-pop@%s", w.fname(fn), w.ipos(gc)), w.ipos(gc), "no use of the view after a pop")
+			}
+		}
+	}
+	c.check(nViews >= 3, rule, "views/floor", "-", "header views found", fmt.Sprintf("only %d GetVia/GetRoute call sites found", nViews))
+	// (b) escape
+	viewType := func(t types.Type) bool {
+		pt, ok := t.(*types.Pointer)
+		if !ok {
+			return false
+		}
+		nt, ok := pt.Elem().(*types.Named)
+		if !ok || nt.Obj().Pkg() != w.Main.Pkg {
+			return false
+		}
+		switch nt.Obj().Name() {
+		case "Via", "ViaParam", "Route", "RouteParam":
+			return true
+		}
+		return false
+	}
+	nEsc := 0
+	for _, fn := range w.All {
+		if !w.isMain(fn) || fn.Blocks == nil {
+			continue
+		}
+		eachInstr(fn, func(in ssa.Instruction) {
+			var val ssa.Value
+			where := ""
+			switch x := in.(type) {
+			case *ssa.Store:
+				switch a := x.Addr.(type) {
+				case *ssa.FieldAddr:
+					val, where = x.Val, "the field "+fieldRef(a)
+				case *ssa.Global:
+					val, where = x.Val, "the package variable "+a.Name()
+				}
+			case *ssa.MapUpdate:
+				val, where = x.Value, "a map"
+			case *ssa.Send:
+				val, where = x.X, "a channel"
+			}
+			if val == nil || !viewType(val.Type()) {
+				return
+			}
+			// decoders and constructors fill the objects they build; a view is what a Message getter handed out
+			fromGetter := false
+			localDerives(val, func(v ssa.Value) bool {
+				if cc, ok := v.(*ssa.Call); ok {
+					switch w.calleeName(cc) {
+					case "(*Message).GetVia", "(*Message).GetRoute", "(*Via).GetParam", "(*Route).GetRouteParam", "(*Message).GetTopViaParam":
+						fromGetter = true
+						return true
+					}
+				}
+				return false
+			})
+			if fromGetter {
+				nEsc++
+				c.bad(rule, fmt.Sprintf("%s/view-escape#%d", w.fname(fn), nEsc), w.ipos(in), "an entry of a header view handed out by a Message getter is kept in "+where+": the remembered object goes stale when the list is edited in place (the pop of one entry of a comma-joined line), while the removal of a whole line replaces it - joined and split layouts of the same list then behave differently")
+			}
+		})
+	}
+	c.okTrivial(rule, "views/no-escape", "-", "no header view is kept in a field, package variable, map or channel")
 }
 
 // c17ElementsTrimmed: the elements of a comma-separated Via line may be surrounded by blanks (COMMA = SWS "," SWS); a
